@@ -23,7 +23,7 @@ MANIFEST = {
     "note": "Tolerance 1e-9 of the field maximum in double, 2e-5 in single precision; bit-identity only for the footprint-ignores-values claim (same call, same process).",
 }
 
-SCALARS = (1.7, -0.3, 0.0, 1e4, 1e-5)
+SCALARS = (1.7, -0.3, 0.0, 1e4, 1e-5, 1e-10, 3e-13, 1e12)  # incl. trace-gas units (every cell far below 1e-8)
 
 
 def configs(tier):
